@@ -11,6 +11,7 @@ import (
 	"github.com/privacybydesign/gabi/gabikeys"
 	"github.com/privacybydesign/gabi/rangeproof"
 	"github.com/privacybydesign/gabi/revocation"
+	"pgregory.net/rapid"
 
 	"verif/sim/kernel"
 )
@@ -142,6 +143,7 @@ type Verdict struct {
 	DecodeErr error
 	Panic     string
 	Accepted  bool
+	Ambiguous bool // verdict depended on map order; Accepted means "accepted every time"
 	List      gabi.ProofList
 }
 
@@ -157,6 +159,26 @@ func verifyWire(wire []byte, s Session) (v Verdict) {
 	if p := guard(func() { v.Accepted = v.List.Verify(s.Keys, s.Context, s.Nonce, s.IsSig, s.Labels) }); p != "" {
 		v.Panic = "verify: " + p
 		v.Accepted = false
+		return
+	}
+	// Map-order hole (DESIGN section 4): when a proof with a non-revocation part has two hidden
+	// responses below 2^580 the verdict of one Verify call depends on Go's map iteration order.
+	// Such a delivery is verified repeatedly (fresh decode each time) and counts as accepted only
+	// if every verification accepts, which makes the verdict the oracle sees repeatable.
+	for _, p := range v.List {
+		if pd, ok := p.(*gabi.ProofD); ok && pd.NonRevocationProof != nil && smallResponseClass(pd) == ">=2" {
+			v.Ambiguous = true
+		}
+	}
+	for i := 0; v.Ambiguous && v.Accepted && i < 16; i++ {
+		var l2 gabi.ProofList
+		if json.Unmarshal(wire, &l2) != nil {
+			break
+		}
+		if p := guard(func() { v.Accepted = l2.Verify(s.Keys, s.Context, s.Nonce, s.IsSig, s.Labels) }); p != "" {
+			v.Panic = "verify: " + p
+			v.Accepted = false
+		}
 	}
 	return
 }
@@ -208,4 +230,156 @@ func mustUnmarshal(b []byte, v any) {
 	if err := json.Unmarshal(b, v); err != nil {
 		panic(err)
 	}
+}
+
+// ---------------------------------------------------------------------------
+// World: keys, revocation authorities and holders of one run.
+
+type World struct {
+	r   *kernel.Run
+	hr  *mrand.Rand
+	ras map[string]*kernel.RevAuthority
+}
+
+func newWorld(r *kernel.Run, valSeed uint64) *World {
+	return &World{r: r, hr: hrand(valSeed, 77), ras: map[string]*kernel.RevAuthority{}}
+}
+
+func (w *World) RA(key *kernel.Key) *kernel.RevAuthority {
+	if ra := w.ras[key.Name]; ra != nil {
+		return ra
+	}
+	ra, err := kernel.NewRevAuthority(key)
+	if err != nil {
+		panic(err)
+	}
+	w.ras[key.Name] = ra
+	return ra
+}
+
+// HeldCred is a credential in a holder's wallet together with its ledger entry.
+type HeldCred struct {
+	Cred *gabi.Credential
+	Led  *LedgerCred
+}
+
+// NewCred has the issuer of key sign n attributes of the given classes for secret.
+func (w *World) NewCred(key *kernel.Key, secret *big.Int, classes []int, nonrev bool) *HeldCred {
+	var attrs []*big.Int
+	for _, c := range classes {
+		attrs = append(attrs, attrValue(c, key.Pk.Params.Lm, w.hr))
+	}
+	if nonrev {
+		c, l := signRevCredential(key, w.RA(key), secret, attrs)
+		return &HeldCred{c, l}
+	}
+	c, l := signCredential(key, secret, attrs)
+	return &HeldCred{c, l}
+}
+
+// BuilderSpec describes one element of a proof-builder list.
+type BuilderSpec struct {
+	Issuance bool  `json:"issuance"` // CredentialBuilder (ProofU) instead of disclosure
+	Key      int   `json:"key"`      // index into the run's key list
+	Holder   int   `json:"holder"`   // which secret
+	NAttrs   int   `json:"n_attrs"`
+	Mask     int   `json:"mask"`
+	Nonrev   bool  `json:"nonrev"`
+	Range    bool  `json:"range"`
+	Blind    []int `json:"blind,omitempty"`
+}
+
+func drawBuilderSpec(rt *rapid.T, nkeys, nholders int, allowExtras bool) BuilderSpec {
+	b := BuilderSpec{Key: rapid.IntRange(0, nkeys-1).Draw(rt, "bkey"), Holder: rapid.IntRange(0, nholders-1).Draw(rt, "holder")}
+	b.Issuance = rapid.IntRange(0, 3).Draw(rt, "issuance") == 0
+	b.NAttrs = rapid.IntRange(1, 4).Draw(rt, "nattrs")
+	b.Mask = rapid.IntRange(0, (1<<b.NAttrs)-1).Draw(rt, "mask")
+	if allowExtras && !b.Issuance {
+		b.Nonrev = rapid.IntRange(0, 3).Draw(rt, "nonrev") == 0
+		b.Range = rapid.IntRange(0, 3).Draw(rt, "range") == 0
+	}
+	if b.Issuance && rapid.Bool().Draw(rt, "hasblind") {
+		b.Blind = []int{rapid.IntRange(0, 2).Draw(rt, "blind")}
+	}
+	return b
+}
+
+// BuiltSession is an honest proof list with everything the oracles need.
+type BuiltSession struct {
+	Sess     Session
+	Builders gabi.ProofBuilderList
+	List     gabi.ProofList
+	Wire     []byte
+	Creds    []*HeldCred // per builder (nil for issuance builders)
+	Secrets  []*big.Int  // per builder: the holder secret it proves knowledge of
+}
+
+// BuildSession lets the holders (colluding if several) build one proof list for the tuple.
+func (w *World) BuildSession(keys []*kernel.Key, secrets []*big.Int, bs []BuilderSpec, context, nonce *big.Int, issig bool) *BuiltSession {
+	out := &BuiltSession{Sess: Session{Context: context, Nonce: nonce, IsSig: issig}}
+	for _, b := range bs {
+		key := keys[b.Key]
+		secret := secrets[b.Holder]
+		out.Sess.Keys = append(out.Sess.Keys, key.Pk)
+		out.Secrets = append(out.Secrets, secret)
+		if b.Issuance {
+			cb, err := gabi.NewCredentialBuilder(key.Pk, context, secret, randBits(w.hr, 80), nil, b.Blind)
+			if err != nil {
+				panic(err)
+			}
+			out.Builders = append(out.Builders, cb)
+			out.Creds = append(out.Creds, nil)
+			continue
+		}
+		classes := make([]int, b.NAttrs)
+		for i := range classes {
+			classes[i] = 2 + w.hr.IntN(2)*6 // small or 128-bit values: range statements below need small ones
+			if b.Range {
+				classes[i] = 2
+			}
+		}
+		hc := w.NewCred(key, secret, classes, b.Nonrev)
+		disclosed := maskToIndices(b.Mask, b.NAttrs)
+		var stmts map[int][]*rangeproof.Statement
+		if b.Range {
+			for i := 1; i <= b.NAttrs; i++ {
+				if b.Mask&(1<<(i-1)) == 0 {
+					ge, _ := rangeproof.NewStatement(rangeproof.GreaterOrEqual, big.NewInt(1))
+					stmts = map[int][]*rangeproof.Statement{i: {ge}}
+					break
+				}
+			}
+		}
+		db, err := hc.Cred.CreateDisclosureProofBuilder(disclosed, stmts, b.Nonrev)
+		if err != nil {
+			panic(err)
+		}
+		out.Builders = append(out.Builders, db)
+		out.Creds = append(out.Creds, hc)
+	}
+	pl, err := out.Builders.BuildProofList(context, nonce, issig)
+	if err != nil {
+		panic(err)
+	}
+	out.List = pl
+	out.Wire = mustJSON(pl)
+	return out
+}
+
+// smallResponseClass classifies a proof by the number of hidden responses below 2^580, the bound
+// under which ProofD verification takes a response to be the revocation attribute's: "1" is the
+// normal case, ">=2" the ambiguous one (see known_findings.jsonl, C11).
+func smallResponseClass(pd *gabi.ProofD) string {
+	p := revocation.Parameters
+	bound := pow2(p.AttributeSize + p.ChallengeLength + p.ZkStat + 1)
+	n := 0
+	for _, v := range pd.AResponses {
+		if v != nil && v.Cmp(bound) < 0 {
+			n++
+		}
+	}
+	if n >= 2 {
+		return ">=2"
+	}
+	return fmt.Sprint(n)
 }
